@@ -40,6 +40,15 @@ func init() {
 	extend("C17", "(R17.7) every call of ResolveFenceposts passes both the strategy's maxSurge and its maxUnavailable: the zero/zero correction depends on both.", r4C17)
 	extend("C19", "(R19.7) every List issued by the controllers, webhooks and finders is restricted to one namespace (InNamespace or ListOptions.Namespace), directly or by every caller that supplies the options — a label that carries only an object name matches same-named objects of other namespaces; (R19.8) UpdateFinalizer computes the new finalizer list from the object it has just fetched, not from the caller's (possibly stale) copy: two rollouts sharing a TrafficRouting would overwrite each other's finalizers.", r4C19)
 	imp("C18", "C19", map[string]string{"R19.8": "R18.8"}, "(R18.8 = C19 R19.8) a finalizer is added or removed on the fresh list, so no other holder's finalizer is dropped or resurrected.")
+	extend("C20", "(R20.5) an early successful return of a converter that is taken because an optional block of the source is absent skips only writes that depend on that block: everything else (conditions, phase, message …) has been written before the return is possible.", r4C20)
+	imp("C09", "C20", map[string]string{"R20.5": "R9.5"}, "(R9.5 = C20 R20.5) a write through the other API version cannot strip status.conditions from a stored Rollout whose canaryStatus is still empty: the controllers read the condition that belongs to the phase without a nil check.")
+	extend("C07", "(R7.7) the template comparison that recognises the canary Deployment created earlier removes the ignored label keys from the labels and the ignored annotation keys from the annotations (a canary that is never recognised is created again on every reconcile); (R7.8) the grace wrapper asks for a retry only together with a positive wait: the branch that answers (retry, graceSeconds·s) is taken under graceSeconds != 0.", r4C07)
+	imp("C02", "C11", map[string]string{"R11.6": "R2.6", "R11.2": "R2.7"}, "(R2.6 = C11 R11.6, R2.7 = C11 R11.2) the BatchRelease half of the step gate: a plan change restarts the batch state machine before Ready can be read for the new plan, and Ready is computed against the batch's own updated pods.")
+	imp("C10", "C09", map[string]string{"R9.2": "R10.7"}, "(R10.7 = C09 R9.2) traffic-routing references cannot be edited while a release is progressing, so rollback restores the resources the release actually modified.")
+	extend("C08", "(R8.8) the StatefulSet-like and DaemonSet handlers leave an update untouched only for the reasons that mean 'not a release change of a workload with a live Rollout' (no replicas / not a rolling update, templates absent, rollout-id unchanged or template equal, no matching Rollout, empty strategy): every other (false, nil) answer lets a release change through unfrozen.", r4C08)
+	imp("C10", "C08", map[string]string{"R8.8": "R10.8"}, "(R10.8 = C08 R8.8) a rollback or a new revision pushed mid-release to a StatefulSet / DaemonSet is re-frozen at admission whatever the number of pod revisions, so no pod is replaced before traffic was put back.")
+	extend("C11", "(R11.8) the release-plan hash is computed over the whole plan (batchPartition included): lowering the partition alone must count as a plan change; (R11.9) blue-green Deployment: only ReplicaSets that are controlled by the Deployment and not terminating are candidates for 'the new ReplicaSet' whose ready pods are reported.", r4C11)
+	extend("C09", "(R9.6) the finalising path runs from every phase (a Rollout can be deleted before any release started), so everything reachable from doFinalising dereferences the canary / blue-green sub-status only under a nil check of that very pointer — a predicate over the other sub-status does not count.", r4C09)
 	extend("C12", "(R12.8) the ordered filter sorts the pods by ordinal before it classifies them: the truncated prefix of the low-priority list must not depend on list order.", r4C12)
 }
 
@@ -893,5 +902,365 @@ func r4C19(c *Ctx) {
 	}
 	if !found {
 		c.Unresolved("R19.8", "pkg/util.UpdateFinalizer: SetFinalizers call")
+	}
+}
+
+// ---------------------------------------------------------------- C20 R20.5
+
+func r4C20(c *Ctx) {
+	p := c.Prog
+	c.Rule("R20.5", "early returns on an absent optional block skip only writes that depend on that block", 2)
+	for _, name := range []string{"api/v1alpha1.Rollout.ConvertTo", "api/v1alpha1.Rollout.ConvertFrom", "api/v1alpha1.BatchRelease.ConvertTo", "api/v1alpha1.BatchRelease.ConvertFrom"} {
+		fn := p.Func(name)
+		if fn == nil {
+			c.Unresolved("R20.5", name)
+			continue
+		}
+		succ := successReturn(fn)
+		for _, ret := range returnsOf(fn) {
+			if !succ(ret) {
+				continue
+			}
+			// nil-guards on source fields under which this return is taken
+			var guards []string
+			for _, f := range FactsAtInstr(ret) {
+				if f.Op == "==" && f.R.Op == "const" && f.R.Name == "nil" && f.L.Op == "field" {
+					guards = append(guards, f.L.Name)
+				}
+			}
+			if len(guards) == 0 {
+				continue
+			}
+			dependsOnGuard := func(t *Term) bool {
+				for _, g := range guards {
+					if MField(g)(t) || t.Any(MField(g)) {
+						return true
+					}
+				}
+				return false
+			}
+			bad := ""
+			for _, b := range fn.Blocks {
+				for _, in := range b.Instrs {
+					var addr, val ssa.Value
+					switch x := in.(type) {
+					case *ssa.Store:
+						addr, val = x.Addr, x.Val
+					case *ssa.MapUpdate:
+						addr, val = x.Map, x.Value
+					default:
+						continue
+					}
+					// only writes into the destination object (not into local temporaries)
+					root := addr
+					for i := 0; i < 32; i++ {
+						switch y := root.(type) {
+						case *ssa.IndexAddr:
+							root = y.X
+							continue
+						case *ssa.FieldAddr:
+							root = y.X
+							continue
+						case *ssa.UnOp:
+							root = y.X
+							continue
+						case *ssa.Slice:
+							root = y.X
+							continue
+						}
+						break
+					}
+					if _, isAlloc := root.(*ssa.Alloc); isAlloc {
+						continue
+					}
+					if in.Block() == ret.Block() {
+						continue
+					}
+					// can the return still be reached after this write? then the write is not skipped by it
+					if r, _ := CanReach(PointAfter(in), func(y ssa.Instruction) bool { return y == ssa.Instruction(ret) }, ReachOpts{}); r {
+						continue
+					}
+					// writes on the error / other-type branches do not count: the write must be reachable from where the guard is tested
+					if r, _ := CanReach(Entry(fn), func(y ssa.Instruction) bool { return y == in }, ReachOpts{CutInstr: func(y ssa.Instruction) bool { return y == ssa.Instruction(ret) }}); !r {
+						continue
+					}
+					if dependsOnGuard(TermOf(addr)) || SliceHas(val, func(t *Term) bool { return dependsOnGuard(t) }) {
+						continue
+					}
+					bad = "the write to " + TermOf(addr).String() + " at " + p.Pos(in.Pos()) + " does not depend on " + strings.Join(guards, "/") + " but happens only after the early return at " + p.Pos(ret.Pos())
+				}
+			}
+			c.Ob("R20.5", name+"#early-return("+strings.Join(guards, ",")+" == nil)", ret.Pos(), bad == "", "the early return skips only what depends on the absent block",
+				ifs(bad != "", bad+": an object whose optional block is absent loses that field in conversion"))
+		}
+	}
+}
+
+// ---------------------------------------------------------------- C07 R7.7, R7.8
+
+func r4C07(c *Ctx) {
+	p := c.Prog
+	c.Rule("R7.7", "ignored label keys are removed from labels, ignored annotation keys from annotations", 2)
+	if fn := p.Func("pkg/util.EqualIgnoreSpecifyMetadata"); fn == nil {
+		c.Unresolved("R7.7", "util.EqualIgnoreSpecifyMetadata")
+	} else {
+		var pl, pa *ssa.Parameter
+		for _, q := range fn.Params {
+			switch q.Name() {
+			case "ignoreLabels":
+				pl = q
+			case "ignoreAnno":
+				pa = q
+			}
+		}
+		if pl == nil || pa == nil {
+			c.Unresolved("R7.7", "util.EqualIgnoreSpecifyMetadata: ignoreLabels / ignoreAnno parameters")
+		} else {
+			seen := map[string]bool{}
+			for _, ci := range AllCalls(fn) {
+				bi, ok := ci.Common().Value.(*ssa.Builtin)
+				if !ok || bi.Name() != "delete" || len(ci.Common().Args) != 2 {
+					continue
+				}
+				m, k := ci.Common().Args[0], ci.Common().Args[1]
+				ks := BackwardSlice(k)
+				want := ""
+				switch {
+				case ks[pa] && !ks[pl]:
+					want = "Annotations"
+				case ks[pl] && !ks[pa]:
+					want = "Labels"
+				default:
+					continue
+				}
+				src := "ignoreAnno"
+				if want == "Labels" {
+					src = "ignoreLabels"
+				}
+				mt := TermOf(m)
+				ok2 := MField(want)(mt) || mt.Any(MField(want))
+				seen[want] = true
+				c.Ob("R7.7", "EqualIgnoreSpecifyMetadata#delete("+want+")", ci.Pos(), ok2, "keys of "+src+" are deleted from "+want,
+					ifs(!ok2, "the key comes from "+src+" but is deleted from "+mt.String()+": patched "+strings.ToLower(want)+" are not ignored, the canary Deployment created earlier is never recognised and a new one is created on every reconcile"))
+			}
+			for _, w := range []string{"Labels", "Annotations"} {
+				if !seen[w] {
+					c.Ob("R7.7", "EqualIgnoreSpecifyMetadata#delete("+w+")", fn.Pos(), false, "ignored keys are deleted from "+w, "no delete of an ignored key from "+w+" found")
+				}
+			}
+		}
+	}
+
+	c.Rule("R7.8", "the grace wrapper answers retry with a wait derived from graceSeconds only when graceSeconds != 0", 1)
+	fn := p.Func("pkg/util/grace.runWithGraceSeconds")
+	if fn == nil {
+		c.Unresolved("R7.8", "grace.runWithGraceSeconds")
+		return
+	}
+	var gs *ssa.Parameter
+	for _, q := range fn.Params {
+		if q.Name() == "graceSeconds" {
+			gs = q
+		}
+	}
+	if gs == nil {
+		c.Unresolved("R7.8", "grace.runWithGraceSeconds: graceSeconds parameter")
+		return
+	}
+	n := 0
+	for _, ret := range returnsOf(fn) {
+		if len(ret.Results) != 3 {
+			continue
+		}
+		for _, lf := range BoolLeaves(ret.Results[0], ret.Block()) {
+			k, ok := lf.V.(*ssa.Const)
+			if !ok || constText(k) != "true" {
+				continue
+			}
+			if e, isC := ret.Results[2].(*ssa.Const); !isC || !e.IsNil() {
+				continue // error path: the caller requeues with back-off
+			}
+			d := ret.Results[1]
+			if !BackwardSlice(d)[gs] {
+				continue // a wait computed elsewhere (remaining time of a pending expectation)
+			}
+			n++
+			fs := append(FactsAtInstr(ret), lf.Facts...)
+			nz := HasFact(fs, func(f Fact) bool {
+				return (f.Op == "!=" || f.Op == ">") && f.L.V == ssa.Value(gs) && f.R.Op == "const" && f.R.Name == "0"
+			})
+			c.Ob("R7.8", "runWithGraceSeconds#retry-with-grace-wait", ret.Pos(), nz, "retry with graceSeconds·s is answered under graceSeconds != 0",
+				ifs(!nz, "this return asks for a retry after graceSeconds seconds without having excluded graceSeconds == 0: with an explicit gracePeriodSeconds of 0 the caller stores a recheck time of now, RequeueAfter is not positive and nothing wakes the rollout up again")).WithFacts(fs)
+		}
+	}
+	if n == 0 {
+		c.Ob("R7.8", "runWithGraceSeconds#retry-with-grace-wait", fn.Pos(), false, "a retry return whose wait derives from graceSeconds", "none found")
+	}
+}
+
+// ---------------------------------------------------------------- C08 R8.8
+
+func r4C08(c *Ctx) {
+	p := c.Prog
+	c.Rule("R8.8", "the partition-only handlers skip an update only for the enumerated reasons", 2)
+	pk := "pkg/webhook/workload/mutating."
+	idLookup := func(t *Term) bool {
+		return t.Op == "lookup" && len(t.Args) == 2 && t.Args[1].Op == "const" && strings.HasSuffix(t.Args[1].Name, "rollout-id")
+	}
+	allowed := FOr(
+		FCmp("==", MCall("util.GetReplicas"), MConst("0")),
+		FFalse(MCall("util.IsStatefulSetRollingUpdate")),
+		FNil(MCall("util.GetTemplate")),
+		FCmp("==", idLookup, idLookup),
+		FTrue(MCall("util.EqualIgnoreHash")),
+		FNil(MResult("fetchMatchedRollout", 0)),
+		FTrue(MCall("RolloutStrategy.IsEmptyRelease")),
+	)
+	for _, name := range []string{pk + "UnifiedWorkloadHandler.handleStatefulSetLikeWorkload", pk + "WorkloadHandler.handleDaemonSet"} {
+		fn := p.Func(name)
+		if fn == nil {
+			c.Unresolved("R8.8", name)
+			continue
+		}
+		noChange := func(in ssa.Instruction) bool {
+			ret, ok := in.(*ssa.Return)
+			if !ok || len(ret.Results) != 2 || ret.Block() == fn.Recover {
+				return false
+			}
+			if e, isC := ret.Results[1].(*ssa.Const); !isC || !e.IsNil() {
+				return false
+			}
+			for _, lf := range BoolLeaves(ret.Results[0], ret.Block()) {
+				if k, ok := lf.V.(*ssa.Const); ok && constText(k) == "false" {
+					return true
+				}
+			}
+			return false
+		}
+		reach, at := CanReach(Entry(fn), noChange, ReachOpts{CutEdge: func(b *ssa.BasicBlock, k int) bool { return EdgeFactMatches(b, k, allowed) }})
+		detail := ""
+		if reach {
+			detail = "the return at " + p.Pos(at.Pos()) + " answers 'unchanged' for a reason outside the list: a release change of a workload with a live Rollout is admitted without the partition freeze, and the native controller starts replacing pods"
+		}
+		c.Ob("R8.8", shortName(name)+"#skip-reasons", fn.Pos(), !reach, "every (false, nil) answer is for one of the enumerated reasons", detail)
+	}
+}
+
+// ---------------------------------------------------------------- C11 R11.8, R11.9
+
+func r4C11(c *Ctx) {
+	p := c.Prog
+	c.Rule("R11.8", "the release-plan hash covers the whole plan", 1)
+	if fn := p.Func("pkg/util.HashReleasePlanBatches"); fn == nil || len(fn.Params) == 0 {
+		c.Unresolved("R11.8", "util.HashReleasePlanBatches")
+	} else {
+		found := false
+		for _, ci := range AllCalls(fn) {
+			if !strings.HasSuffix(CalleeName(ci.Common()), "json.Marshal") || len(ci.Common().Args) == 0 {
+				continue
+			}
+			found = true
+			v := ci.Common().Args[0]
+			for i := 0; i < 8; i++ {
+				switch x := v.(type) {
+				case *ssa.MakeInterface:
+					v = x.X
+					continue
+				case *ssa.UnOp:
+					if x.Op == token.MUL {
+						v = x.X
+						continue
+					}
+				}
+				break
+			}
+			ok := v == ssa.Value(fn.Params[0])
+			c.Ob("R11.8", "HashReleasePlanBatches#hashed-value", ci.Pos(), ok, "the marshalled value is the release plan itself",
+				ifs(!ok, "the hash is computed over "+TermOf(v).String()+", not over the whole plan: a change of batchPartition alone (a step back, a jump backwards) is no longer a plan change, currentBatch is never pulled back and the batch keeps reporting Ready"))
+		}
+		if !found {
+			c.Unresolved("R11.8", "util.HashReleasePlanBatches: json.Marshal call")
+		}
+	}
+
+	c.Rule("R11.9", "blue-green Deployment: candidates for the new ReplicaSet are owned and not terminating", 1)
+	fn := p.Func("pkg/controller/batchrelease/control/bluegreenstyle/deployment.realController.getUpdatedReadyReplicas")
+	if fn == nil {
+		c.Unresolved("R11.9", "bluegreenstyle/deployment.realController.getUpdatedReadyReplicas")
+		return
+	}
+	n := 0
+	for _, ci := range AllCalls(fn) {
+		bi, ok := ci.Common().Value.(*ssa.Builtin)
+		if !ok || bi.Name() != "append" || len(ci.Common().Args) < 2 {
+			continue
+		}
+		// the appended element comes from the listed items
+		fromItems := false
+		for x := range BackwardSlice(ci.Common().Args[1]) {
+			if t := TermOf(x); MField("Items")(t) || t.Any(MField("Items")) {
+				fromItems = true
+			}
+		}
+		if !fromItems {
+			continue
+		}
+		n++
+		fs := FactsAtInstr(ci.(ssa.Instruction))
+		owned := HasFact(fs, FTrue(MCall("IsControlledBy")))
+		live := HasFact(fs, FTrue(MCall("Time.IsZero", MField("DeletionTimestamp"))))
+		var miss []string
+		if !owned {
+			miss = append(miss, "metav1.IsControlledBy(rs, d) == true")
+		}
+		if !live {
+			miss = append(miss, "rs.DeletionTimestamp.IsZero() == true")
+		}
+		c.Ob("R11.9", "getUpdatedReadyReplicas#candidate", ci.Pos(), len(miss) == 0, "a ReplicaSet becomes a candidate only when it is controlled by the Deployment and not terminating",
+			ifs(len(miss) > 0, "not established on the path to the append: "+strings.Join(miss, "; ")+" — a foreign ReplicaSet with the same labels and template can be taken for the new one, and its ready pods reported as this release's")).WithFacts(fs)
+	}
+	if n == 0 {
+		c.Ob("R11.9", "getUpdatedReadyReplicas#candidate", fn.Pos(), false, "append of a listed ReplicaSet to the candidate list", "anchor not found")
+	}
+}
+
+// ---------------------------------------------------------------- C09 R9.6
+
+func r4C09(c *Ctx) {
+	p := c.Prog
+	c.Rule("R9.6", "the finalising path dereferences the sub-status only under its own nil check", 2)
+	root := p.Func("pkg/controller/rollout.RolloutReconciler.doFinalising")
+	if root == nil {
+		c.Unresolved("R9.6", "rollout.RolloutReconciler.doFinalising")
+		return
+	}
+	n := 0
+	for _, fn := range samePkgClosure(p, root) {
+		ds := OptionalDerefs(fn, func(owner, field string) bool {
+			return strings.HasSuffix(owner, "RolloutStatus") && (field == "CanaryStatus" || field == "BlueGreenStatus")
+		})
+		uses := false
+		for _, b := range fn.Blocks {
+			for _, in := range b.Instrs {
+				if fa, ok := in.(*ssa.FieldAddr); ok {
+					if nm, _ := FieldOf(fa); nm == "CanaryStatus" || nm == "BlueGreenStatus" {
+						uses = true
+					}
+				}
+			}
+		}
+		if !uses {
+			continue
+		}
+		n++
+		detail := ""
+		if len(ds) > 0 {
+			d := ds[0]
+			detail = "status." + d.Field.Name() + " is dereferenced at " + p.Pos(d.Instr.Pos()) + " without a nil check of that pointer on the path: a Rollout that is deleted before its first release (or right after the strategy was switched between canary and blue-green) makes the controller panic on every reconcile"
+		}
+		c.Ob("R9.6", shortName(FuncName(fn))+"#sub-status-deref", fn.Pos(), len(ds) == 0, "sub-status pointers are dereferenced under their own nil check", detail)
+	}
+	if n == 0 {
+		c.Unresolved("R9.6", "functions under doFinalising that read the sub-status")
 	}
 }
